@@ -519,3 +519,106 @@ def check_U5(ctx, rep):
     if n < 3:
         raise Broken('U5: expected two guarded results and the path-halving write in Elems::find, found %d sites' % n)
     return n
+
+
+# ------------------------------------------------------------------ U6 / U7
+
+def _entry_insert(n, self_id):
+    """(table field, key root id, value root id) of `self.<table>.entry(K).or_default().insert(V)`"""
+    if n.get('k') != 'mcall' or n['m'] != 'insert' or len(n['a']) != 1:
+        return None
+    r = strip(n['r'])
+    if r.get('k') == 'mcall' and r['m'] in ('or_default', 'or_insert_with', 'or_insert'):
+        r = strip(r['r'])
+    else:
+        return None
+    if r.get('k') != 'mcall' or r['m'] != 'entry' or not r['a']:
+        return None
+    f = _self_field(r['r'], self_id)
+    k_, v_ = chain_root(r['a'][0]), chain_root(n['a'][0])
+    if f is None or k_ is None or v_ is None:
+        return None
+    return f, k_['id'], v_['id']
+
+
+def check_U6(ctx, rep, impl_prefix, fwd, rev):
+    """a class-level edge whose insertion into the forward table is *tested* (`if !fwd.entry(a).or_default().insert(b) { return .. }` -
+    the "was it new" idiom) is mirrored in the same function by `rev.entry(b).or_default().insert(a)` with the same a and b"""
+    cr = ctx.lib('ascent_byods_rels')
+    n = 0
+    for path, b in sorted(cr.bodies.items()):
+        if not path.startswith(impl_prefix):
+            continue
+        self_id = _self_id(b)
+        if self_id is None:
+            continue
+        ins = []
+        for x, parents in walk(b['tree']):
+            ei = _entry_insert(x, self_id)
+            if ei:
+                chain = list(parents) + [x]
+                tested = any(a.get('k') == 'if' and _contains(a['c'], lambda y: y is x) for a in parents)
+                ins.append((ei, tested, x))
+        for (f, k_, v_), tested, x in ins:
+            if f != fwd or not tested:
+                continue
+            n += 1
+            rep.functions.add(path)
+            ok = any(f2 == rev and k2 == v_ and v2 == k_ for (f2, k2, v2), _, _ in ins)
+            rep.inst('U6', '%s: tested insertion of an edge into `%s` is mirrored in `%s` with the ends swapped: %s' % (path, fwd, rev, ok))
+            if not ok:
+                same = any(f2 == rev and k2 == k_ and v2 == v_ for (f2, k2, v2), _, _ in ins)
+                rep.viol('U6', path, 'edge-not-mirrored' + (':same-direction' if same else ''),
+                         'a new class-level edge (a, b) is entered into `%s[a]` but `%s[b]` does not get a%s: rev_set_of and the back-edge '
+                         'intersection of `add` read the reverse table' % (fwd, rev, ' (the reverse table gets (a, b) again instead of (b, a))' if same else ''),
+                         loc=cr.loc(x))
+    return n
+
+
+def check_U7(ctx, rep, module):
+    """size-dispatched set subtraction: where one function offers both `for x in B { A.remove(x) }` and `A.retain(|x| ..B.contains(x)..)`
+    on the same two sets, the retain predicate is the negated membership test (both branches compute A \\ B)"""
+    cr = ctx.lib('ascent_byods_rels')
+    n = 0
+    for path, b in sorted(cr.bodies.items()):
+        if not path.startswith(module + '::'):
+            continue
+        removes, retains = [], []
+        for x, parents in walk(b['tree']):
+            if x.get('k') == 'mcall' and x['m'] == 'remove' and x['a']:
+                a_ = chain_root(x['r'])
+                # the iterated collection: nearest enclosing for-loop's iterator source
+                src = None
+                for p_ in reversed(parents):
+                    if p_.get('k') == 'match' and p_.get('src') == 'for':
+                        e = strip(p_['e'])
+                        if e.get('k') == 'call' and e['a'] and cname(callee(e) or {}).endswith('into_iter'):
+                            r = chain_root(e['a'][0])
+                            if r is not None:
+                                src = r['id']
+                                break
+                if a_ is not None and src is not None and any(lp.get('k') == 'loop' for lp in parents):
+                    removes.append((a_['id'], src))
+            if x.get('k') == 'mcall' and x['m'] == 'retain' and x['a'] and strip(x['a'][0]).get('k') == 'closure':
+                a_ = chain_root(x['r'])
+                cl = strip(x['a'][0])
+                body = strip(cl['b'])
+                neg = False
+                while body.get('k') == 'unary' and body.get('op') in ('not', '!'):
+                    neg = not neg
+                    body = strip(body['e'])
+                if a_ is not None and body.get('k') == 'mcall' and body['m'] == 'contains':
+                    b_ = chain_root(body['r'])
+                    if b_ is not None:
+                        retains.append((a_['id'], b_['id'], neg, x))
+        for a_id, b_id, neg, x in retains:
+            if (a_id, b_id) not in removes:
+                continue
+            n += 1
+            rep.functions.add(path)
+            rep.inst('U7', '%s: `retain` branch and remove-loop branch over the same two sets compute the same difference: %s' % (path, neg))
+            if not neg:
+                rep.viol('U7', path, 'retain-keeps-intersection',
+                         'the remove-loop branch computes A \\ B, the `retain` branch keeps A ∩ B (membership test not negated): which one runs '
+                         'depends on the relative sizes of the two sets', loc=cr.loc(x))
+    return n
